@@ -96,6 +96,32 @@ let answer kw =
       (match all_translations fuel g codes t_err start w with
        | None -> "none"
        | Some l -> "ok|" ^ String.concat ";" (List.map (fun t -> tree_str t ^ "=" ^ string_of_int (int_of_z (tcost t))) l))
+  | "TRANSF" ->
+      (* as TRANS, on the full-information variant of the grammar (FullInfo.full): the derivation trees *)
+      let fuel = nat_of_int (next ()) in
+      let g = read_tgrammar () in
+      let nc = next () in
+      let codes = times nc (fun () -> z_of_int (next ())) in
+      let t_err = nat_of_int (next ()) in
+      let start = nat_of_int (next ()) in
+      let n = next () in
+      let w = times n (fun () -> nat_of_int (next ())) in
+      (match all_translations fuel (full g) codes t_err start w with
+       | None -> "none"
+       | Some l -> "ok|" ^ String.concat ";" (List.map (fun t -> tree_str t ^ "=" ^ string_of_int (int_of_z (tcost t))) l))
+  | "SIMPLEMIN" ->
+      (* grammar start err e m ntoks toks -> least cost of a successful simple recovery: "none" | "inf" | cost *)
+      let g = List.map strip (read_tgrammar ()) in
+      let start = nat_of_int (next ()) in
+      let err = nat_of_int (next ()) in
+      let e = nat_of_int (next ()) in
+      let m = nat_of_int (next ()) in
+      let n = next () in
+      let w = times n (fun () -> nat_of_int (next ())) in
+      (match min_simple_cost g start err w e m with
+       | None -> "none"
+       | Some None -> "inf"
+       | Some (Some c) -> string_of_int (int_of_nat c))
   | "DENOTE" ->
       let fuel = nat_of_int (next ()) in
       let root = nat_of_int (next ()) in
